@@ -144,6 +144,181 @@ def drop_dead_foreign(trees, logs=()):
                         lg.append("dropped fully inlined method %s.%s" % (st.name, name))
 
 
+def flatten_new_bases(trees, known_classes, log=None):
+    """A class that the rule tables know, deriving from a package class they do not know (a base class or mixin introduced to hold
+    what two classes had in common), gets the members of that base copied in - methods and class-level assignments it does not define
+    itself - and `super().__init__(..)` replaced by the base constructor's body; the unknown base disappears from its bases.  Only
+    single inheritance from such a base, a base without `super()` calls of its own, whose methods read no module-level name that means
+    something else in the derived class's module.  trees: {modname: ast.Module}; known_classes: set of class names."""
+    import copy as _copy
+    log = log if log is not None else []
+    classes = {}            # name -> (modname, ClassDef) for classes defined once
+    count = {}
+    for modname, t in trees.items():
+        for st in t.body:
+            if isinstance(st, ast.ClassDef):
+                count[st.name] = count.get(st.name, 0) + 1
+                classes[st.name] = (modname, st)
+    classes = {k: v for k, v in classes.items() if count[k] == 1}
+
+    def module_bindings(t):
+        """name -> description of what a module-level name is bound to (imports and definitions)"""
+        out = {}
+        for st in t.body:
+            if isinstance(st, ast.Import):
+                for a in st.names:
+                    out[(a.asname or a.name).split(".")[0]] = ("import", a.name if a.asname else a.name.split(".")[0])
+            elif isinstance(st, ast.ImportFrom):
+                for a in st.names:
+                    out[a.asname or a.name] = ("from", (st.module or "").split(".")[-1], a.name)
+            elif isinstance(st, (ast.FunctionDef, ast.AsyncFunctionDef, ast.ClassDef)):
+                out[st.name] = ("def", st.name)
+            elif isinstance(st, ast.Assign):
+                for tg in st.targets:
+                    if isinstance(tg, ast.Name):
+                        out[tg.id] = ("assign", ast.dump(st.value))
+        return out
+    import builtins as _b
+    changed = True
+    rounds = 0
+    while changed and rounds < 4:
+        changed = False
+        rounds += 1
+        for modname, t in trees.items():
+            for cls in [st for st in t.body if isinstance(st, ast.ClassDef)]:
+                if cls.name not in known_classes:
+                    continue
+                unknown = [b for b in cls.bases if isinstance(b, ast.Name) and b.id in classes and b.id not in known_classes]
+                if len(unknown) != 1:
+                    continue
+                bmod, base = classes[unknown[0].id]
+                if any(isinstance(n, ast.Name) and n.id == "super" for n in ast.walk(base)) or base.keywords or base.decorator_list:
+                    continue
+                # free names of the base's members must mean the same thing in the derived class's module
+                here, there = module_bindings(t), module_bindings(trees[bmod])
+                ok = True
+                for m in base.body:
+                    local = set()
+                    for n in ast.walk(m):
+                        if isinstance(n, ast.Name) and isinstance(n.ctx, (ast.Store, ast.Del)):
+                            local.add(n.id)
+                        elif isinstance(n, ast.arg):
+                            local.add(n.arg)
+                    for n in ast.walk(m):
+                        if isinstance(n, ast.Name) and isinstance(n.ctx, ast.Load) and n.id not in local and not hasattr(_b, n.id):
+                            if bmod != modname and (n.id not in there or here.get(n.id) != there.get(n.id)) and not (there.get(n.id, ("",))[0] == "def" and here.get(n.id) == ("from", bmod.split(".")[-1], n.id)):
+                                ok = False
+                if not ok:
+                    continue
+                own = set()
+                for m in cls.body:
+                    if isinstance(m, (ast.FunctionDef, ast.AsyncFunctionDef, ast.ClassDef)):
+                        own.add(m.name)
+                    elif isinstance(m, ast.Assign):
+                        for tg in m.targets:
+                            if isinstance(tg, ast.Name):
+                                own.add(tg.id)
+                binit = [m for m in base.body if isinstance(m, ast.FunctionDef) and m.name == "__init__"]
+                # super().__init__(...) / super(C, self).__init__(...) / Base.__init__(self, ...) in the derived constructor
+                dinit = [m for m in cls.body if isinstance(m, ast.FunctionDef) and m.name == "__init__"]
+                if binit and not dinit:
+                    pass                      # the base constructor is simply inherited: copied below
+                elif binit:
+                    bi, di = binit[0], dinit[0]
+                    if bi.args.vararg or bi.args.kwarg or bi.args.kwonlyargs or any(isinstance(n, ast.Return) and n.value is not None for n in ast.walk(bi)):
+                        continue
+                    sites = []
+                    for blk in _all_blocks(di):
+                        for k, st in enumerate(blk):
+                            c = st.value if isinstance(st, ast.Expr) else None
+                            if isinstance(c, ast.Call) and isinstance(c.func, ast.Attribute) and c.func.attr == "__init__":
+                                r = c.func.value
+                                if isinstance(r, ast.Call) and isinstance(r.func, ast.Name) and r.func.id == "super":
+                                    sites.append((blk, k, c, c.args))
+                                elif isinstance(r, ast.Name) and r.id == base.name and c.args:
+                                    sites.append((blk, k, c, c.args[1:]))
+                    if len(sites) != 1:
+                        continue
+                    blk, k, c, args = sites[0]
+                    ps = [x.arg for x in bi.args.args]
+                    nd = len(bi.args.defaults)
+                    bind = {}
+                    okb = not c.keywords or all(kw.arg in ps for kw in c.keywords)
+                    for j, pn in enumerate(ps[1:]):
+                        if j < len(args):
+                            bind[pn] = args[j]
+                    for kw in c.keywords:
+                        if kw.arg:
+                            bind[kw.arg] = kw.value
+                    for j, pn in enumerate(ps):
+                        if pn not in bind and j >= len(ps) - nd and j > 0:
+                            bind[pn] = bi.args.defaults[j - (len(ps) - nd)]
+                    if not okb or set(bind) != set(ps[1:]) or any(isinstance(a, ast.Starred) for a in args):
+                        continue
+                    body = _copy.deepcopy([x for x in bi.body if not (isinstance(x, ast.Expr) and isinstance(x.value, ast.Constant) and isinstance(x.value.value, str))])
+                    dself = di.args.args[0].arg
+                    pre = []
+                    ren = {ps[0]: dself}
+                    for pn in ps[1:]:
+                        tmp = "_b_%s" % pn
+                        ren[pn] = tmp
+                        a = ast.Assign(targets=[ast.Name(id=tmp, ctx=ast.Store())], value=bind[pn])
+                        ast.copy_location(a, blk[k])
+                        ast.fix_missing_locations(a)
+                        pre.append(a)
+                    for x in body:
+                        for n in ast.walk(x):
+                            if isinstance(n, ast.Name) and n.id in ren:
+                                n.id = ren[n.id]
+                    blk[k:k + 1] = pre + (body or [])
+                    if not blk:
+                        blk.append(ast.Pass())
+                elif dinit:
+                    # no base constructor: a `super().__init__()` call (object's) does nothing
+                    for blk in _all_blocks(dinit[0]):
+                        for k, st in enumerate(list(blk)):
+                            c = st.value if isinstance(st, ast.Expr) else None
+                            if isinstance(c, ast.Call) and isinstance(c.func, ast.Attribute) and c.func.attr == "__init__" and isinstance(c.func.value, ast.Call) \
+                                    and isinstance(c.func.value.func, ast.Name) and c.func.value.func.id == "super" and not c.args:
+                                blk[k:k + 1] = [ast.copy_location(ast.Pass(), st)]
+                inherited = []
+                for m in base.body:
+                    if isinstance(m, (ast.FunctionDef, ast.AsyncFunctionDef)):
+                        if m.name in own or (m.name == "__init__" and dinit):
+                            continue
+                        inherited.append(_copy.deepcopy(m))
+                    elif isinstance(m, ast.Assign) and all(isinstance(tg, ast.Name) and tg.id not in own for tg in m.targets):
+                        inherited.append(_copy.deepcopy(m))
+                # methods go after the class docstring; properties/methods first so that definitions precede uses of class-level names
+                pos = 1 if cls.body and isinstance(cls.body[0], ast.Expr) and isinstance(cls.body[0].value, ast.Constant) else 0
+                cls.body[pos:pos] = inherited
+                cls.bases = [b for b in cls.bases if b is not unknown[0]] + [_copy.deepcopy(b) for b in base.bases if not (isinstance(b, ast.Name) and b.id == "object" and len(cls.bases) > 1)]
+                if not cls.bases:
+                    cls.bases = [ast.Name(id="object", ctx=ast.Load())]
+                ast.fix_missing_locations(cls)
+                log.append(("flattened", "%s.%s" % (modname, cls.name), base.name, ""))
+                changed = True
+    # a flattened base that nothing refers to any more is removed
+    for name, (bmod, base) in list(classes.items()):
+        if name in known_classes or not any(l[0] == "flattened" and l[2] == name for l in log):
+            continue
+        refs = 0
+        for t in trees.values():
+            for n in ast.walk(t):
+                if isinstance(n, ast.Name) and n.id == name:
+                    refs += 1
+                elif isinstance(n, ast.Attribute) and n.attr == name:
+                    refs += 1
+        if refs == 0:
+            tb = trees[bmod]
+            tb.body[:] = [st for st in tb.body if st is not base]
+            for t in trees.values():
+                for st in t.body:
+                    if isinstance(st, ast.ImportFrom):
+                        st.names[:] = [a for a in st.names if a.name != name] or st.names
+    return log
+
+
 def build_class_methods(trees):
     seen, out = {}, {}
     for t in trees:
